@@ -104,6 +104,8 @@ pub struct World {
     pub viss: Option<crate::fam_viss::VissConn>,
     pub scopes: Vec<String>,
     pub ms_windows: bool,
+    /// the VISS server of this case runs with authorization disabled (some VISS operation carries token kind 3)
+    pub viss_open: bool,
     pub provs: Vec<(Arc<Mutex<Vec<Vec<(i32, DataValue)>>>>, Arc<AtomicBool>)>,
     pub ids: Vec<i32>,
     pub windows: Vec<(SystemTime, SystemTime)>,
@@ -124,6 +126,7 @@ impl World {
             viss: None,
             scopes: vec![],
             ms_windows: false,
+            viss_open: false,
             provs: vec![],
             ids: vec![],
             windows: vec![],
@@ -588,6 +591,7 @@ pub fn run_case_with(case: &[Vec<Tok>], ms_windows: bool) -> Vec<Vec<Tok>> {
         let (out, ok) = rt.block_on(tokio::task::unconstrained(async {
             let mut w = World::new(delay);
             w.ms_windows = ms_windows;
+            w.viss_open = case.iter().any(|l| matches!(l.first(), Some(50..=52)) && l.get(1) == Some(&3));
             let mut out = Vec::new();
             for l in case {
                 out.extend(step(&mut w, l).await);
